@@ -9,7 +9,7 @@ use serde_json::{json, Value};
 use txtpp::Mode;
 
 const C02_CLASSES: &[&str] = &["deadlock", "panic-main", "panic-worker", "false-failure", "wrong-bytes", "missing-output", "double-complete", "obs-stale", "marker-count"];
-const C03_CLASSES: &[&str] = &["deadlock", "panic-main", "panic-worker", "false-success-cycle", "wrong-bytes", "missing-output", "double-complete", "marker-count", "unrequired-processed"];
+const C03_CLASSES: &[&str] = &["deadlock", "panic-main", "panic-worker", "false-success-cycle", "false-success-fault", "wrong-bytes", "missing-output", "double-complete", "marker-count", "unrequired-processed"];
 const C05_CLASSES: &[&str] = &["deadlock", "false-success-cycle", "false-failure", "false-circular", "bystander-wrong", "missing-output", "wrong-bytes"];
 
 pub fn info_c02() -> PropInfo {
@@ -229,7 +229,9 @@ fn free_stress(ctx: &mut Ctx, prop: &'static str, classes: &'static [&'static st
             // an error result arrives while many other tasks are still queued or running: the run
             // must still return (with the error)
             case.fail_at = Some(r.gen_range(0..n));
-            case.fail_kind = [0u8, 1, 2][r.gen_range(0..3)];
+            // (8: a line in the middle of the source cannot be decoded: the file is not processed to
+            // completion, so the run must not report success)
+            case.fail_kind = [0u8, 1, 2, 8, 8][r.gen_range(0..5)];
             case.input_style = 4;
             case.threads = [1, 2][r.gen_range(0..2)];
             ctx.count("free_running_executions_with_a_failing_file", 1);
